@@ -129,3 +129,63 @@ def leaves(l):
     if l[0] == "pair":
         return leaves(l[1]) + leaves(l[2])
     return [l]
+
+
+def _is_const(t, n):
+    t = strip(t)
+    return isinstance(t, tuple) and t[0] == "const" and t[3] == n
+
+
+def first_of(t):
+    """The collection whose first element t is: `v.remove(0)`, `v[0]`, `v.first()` / `v.get(0)` payload,
+    `v.split_first()` payload .0, the first item of a forward iteration.  None otherwise."""
+    t = strip(t)
+    if not isinstance(t, tuple) or not t:
+        return None
+    if t[0] == "call" and t[1].endswith("::remove") and len(t[2]) == 2 and _is_const(t[2][1], 0):
+        return strip(t[2][0])
+    if t[0] == "field" and t[2] == "0":
+        x = strip(t[1])
+        if x[0] == "field" and x[2] == "Some.0" and strip(x[1])[0] == "call" and strip(x[1])[1].endswith("::split_first"):
+            return strip(strip(x[1])[2][0])
+    if t[0] == "field" and t[2] == "Some.0":
+        x = strip(t[1])
+        if x[0] == "call" and x[1].endswith("::first") and len(x[2]) == 1:
+            return strip(x[2][0])
+    lk = lookup(t)
+    if lk is not None and _is_const(lk[1], 0):
+        return lk[0]
+    return None
+
+
+def rest_of(t, path=None):
+    """The collection of which t holds everything but the first element: `v.split_first()` payload .1 (also
+    `.to_vec()` of it), `v[1..]` (also `.to_vec()`), or a vector from which `remove(0)` was called on this path."""
+    t = strip(t)
+    if not isinstance(t, tuple) or not t:
+        return None
+    if t[0] == "call" and (t[1].endswith("::to_vec") or t[1].endswith("::to_owned") or t[1].endswith("::collect")) and t[2]:
+        inner = rest_of(t[2][0], path)
+        if inner is not None:
+            return inner
+    if t[0] == "field" and t[2] == "1":
+        x = strip(t[1])
+        if x[0] == "field" and x[2] == "Some.0" and strip(x[1])[0] == "call" and strip(x[1])[1].endswith("::split_first"):
+            return strip(strip(x[1])[2][0])
+    if t[0] == "call" and t[1].endswith("::index") and len(t[2]) == 2:
+        r = strip(t[2][1])
+        if r[0] == "agg" and r[1].endswith("ops::RangeFrom") and _is_const(dict(r[3]).get("start"), 1):
+            return strip(t[2][0])
+    if t[0] == "call" and t[1].endswith("::skip") and len(t[2]) == 2 and _is_const(t[2][1], 1):
+        l = layout(t[2][0])
+        if l is not None and l[0] == "elem" and l[2] == 0:
+            return l[1]
+    if path is not None:
+        # a vector (a copy of the operands) from which the first element was removed, exactly once, on this path
+        rm = [e for e in path.calls() if e["callee"].endswith("::remove") and len(e["args"]) == 2 and strip(e["args"][0]) == t]
+        others = [e for e in path.calls() if strip(e["args"][0]) == t and len(e["args"]) >= 1 and
+                  any(e["callee"].endswith(x) for x in ("::push", "::insert", "::pop", "::truncate", "::clear", "::swap_remove",
+                                                        "::retain", "::drain", "::reverse", "::sort", "::swap", "::extend"))] if True else []
+        if len(rm) == 1 and _is_const(rm[0]["args"][1], 0) and not others:
+            return t
+    return None
